@@ -282,6 +282,13 @@ Definition ue_run_with (cfg : dcfg) (sep : N) (dec : bool) (chunks : list bytes)
   let s0 := mk_ue sep dec (ue_mode ue_init) None [] (ue_complete ue_init) [] 0 0%Z in
   let s := ue_run_state cfg s0 chunks in (ue_params s, ue_flags s, ue_status s).
 
+(* API misuse is still deterministic: htp_urlenp_finalize in the middle (None), more data afterwards *)
+Definition ue_step (cfg : dcfg) (s : ue_state) (o : option bytes) : ue_state :=
+  match o with Some b => ue_parse_partial cfg s b | None => ue_finalize cfg s end.
+Definition ue_run_ops (cfg : dcfg) (sep : N) (dec : bool) (ops : list (option bytes)) : list (bytes * bytes) * N * Z :=
+  let s0 := mk_ue sep dec (ue_mode ue_init) None [] (ue_complete ue_init) [] 0 0%Z in
+  let s := ue_finalize cfg (fold_left (ue_step cfg) ops s0) in (ue_params s, ue_flags s, ue_status s).
+
 (* ------------------------------------------------------------------ htp_content_handlers.c
    htp_ch_urlencoded_callback_request_line: no parser for a NULL or empty query; otherwise
    parse_complete and every pair appended to tx->request_params with source QUERY_STRING.
